@@ -289,12 +289,20 @@ def mapLayerKeys (cfg : Config) (data : Bytes) (offset : Nat) (encapsulated : Bo
 def bump (cs : List (Nat × Nat)) (k : Nat) : List (Nat × Nat) :=
   (k, ((cs.lookup k).getD 0) + 1) :: cs.filter (fun e => e.1 != k)
 
+/-- the layer index the next layer is compared with: the last layer that does not skip the comparison -/
+def encapIdx (idx : Nat) (curSkip : Bool) (curLayer : Nat) : Nat := if curSkip then idx else curLayer
+
+/-- does the next layer start an encapsulation: it lies below the reference layer, or repeats its level
+    without being one of the layers that skip the comparison (802.1Q, MPLS, IPv6 fragment header) -/
+def encapTrig (idx : Nat) (nxtSkip : Bool) (nxtLayer : Nat) : Bool :=
+  decide (nxtLayer < idx) || (!nxtSkip && nxtLayer == idx)
+
 /-- The loop of ParsePacket. `calls` counts, per parser index, how many times that parser has
     already run (after the `fix:` commit; the pinned tree counted selections, so every parser but
     the first saw Calls ≥ 1 and ICMP type/code were never filled). -/
-def parseLoop (cfg : Config) (data : Bytes) : Nat → Next → Nat → Bool → List (Nat × Nat) → FlowMsg → Res FlowMsg
-  | 0, _, _, _, _, _ => .error .diverge
-  | fuel + 1, next, offset, encap, calls, m =>
+def parseLoop (cfg : Config) (data : Bytes) : Nat → Next → Nat → Bool → Nat → List (Nat × Nat) → FlowMsg → Res FlowMsg
+  | 0, _, _, _, _, _, _ => .error .diverge
+  | fuel + 1, next, offset, encap, encapIndex, calls, m =>
     if next.callable ∧ offset ≤ data.length then
       let pc : PC := ⟨encap, (calls.lookup next.parserIndex).getD 0, cfg.ports⟩
       let r := runParser next.parser m (data.drop offset) pc
@@ -302,12 +310,16 @@ def parseLoop (cfg : Config) (data : Bytes) : Nat → Next → Nat → Bool → 
       | .error e => .error e
       | .ok m1 =>
         let m2 := { m1 with layerSize := m1.layerSize ++ [r.size % 2 ^ 32] }
-        let encap' := encap || (!r.next.encapSkip && r.next.layerIndex ≤ next.layerIndex)
-        parseLoop cfg data fuel r.next (offset + r.size) encap' (bump calls next.parserIndex) m2
+        -- the layer the next one is compared with: the last layer that does not skip the comparison
+        -- (after the `fix:` commit; the pinned tree compared with the current layer, so GRE + MPLS + IP
+        -- left the inner IP un-encapsulated)
+        let idx := encapIdx encapIndex next.encapSkip next.layerIndex
+        let encap' := encap || encapTrig idx r.next.encapSkip r.next.layerIndex
+        parseLoop cfg data fuel r.next (offset + r.size) encap' idx (bump calls next.parserIndex) m2
     else .ok m
 
 /-- ParsePacket(flowMessage, data, config, pe) -/
 def parsePacket (cfg : Config) (m : FlowMsg) (data : Bytes) : Res FlowMsg :=
-  parseLoop cfg data (2 * data.length + 4) ⟨.ethernet, Parser.ethernet.keys, false⟩ 0 false [] m
+  parseLoop cfg data (2 * data.length + 4) ⟨.ethernet, Parser.ethernet.keys, false⟩ 0 false Parser.ethernet.layerIndex [] m
 
 end Goflow.Producer
